@@ -9,5 +9,5 @@ Require Import ExtrOcamlBasic.
 Require Import LV.Base.Lin LV.Spec.Specs.
 
 Extraction "lin.ml"
-  lincheck wf_historyb lp_validb erase
-  Fifo BFifo Stack Deque PQueue BPQueue SetSpec MapSpec.
+  lincheck lincheck_memo wf_historyb lp_validb erase
+  Fifo BFifo Stack Deque PQueue BPQueue SetSpec MapSpec zlist_eqb zzlist_eqb.
